@@ -25,6 +25,7 @@ Non-trivial = accepted and containing at least one reference token or dynamic bl
     replay,
     exh: None,
     totality: false,
+    aggregate: None,
 };
 
 fn status<T>(r: &Result<Result<T, LibErr>, Caught>) -> &'static str {
